@@ -22,6 +22,7 @@ C08 -- sequence expressions and sequence/aggregate functions equal the F&O list 
 from __future__ import annotations
 
 import math
+import random
 import sys
 from decimal import Decimal, getcontext
 from fractions import Fraction
@@ -205,7 +206,34 @@ def atom_text(a) -> str:
     return dbl_text(v)
 
 
-def text(e) -> str:
+CALL_STYLES = ('ref', 'arrow', 'partial', 'inline', 'let-ref')
+
+
+def call_text(name: str, args: list[str], style) -> str:
+    """a static function call, or the same call through a function item (XPath 3.0 / 3.1)"""
+    n = len(args)
+    plain = f'{name}(' + ', '.join(args) + ')'
+    if style is None or n == 0:
+        return plain
+    if style == 'ref':                      # named function reference, dynamic call
+        return f'{name}#{n}(' + ', '.join(args) + ')'
+    if style == 'arrow':                    # XPath 3.1 arrow operator
+        return f'({args[0]} => {name}(' + ', '.join(args[1:]) + '))'
+    if style == 'partial' and name != 'boolean':   # partial application, then dynamic call
+        # (`boolean(?)` and `string(?)` are evaluated at once: the names are also constructor functions;
+        # reported to the coordinator, not a sequence function)
+        return f'{name}(' + ', '.join(['?'] + args[1:]) + f')({args[0]})'
+    if style == 'inline':                   # inline function wrapping the call
+        ps = [f'$p{i}' for i in range(n)]
+        return f'function({", ".join(ps)}) {{ {name}({", ".join(ps)}) }}(' + ', '.join(args) + ')'
+    if style == 'let-ref':
+        return f'(let $fn := {name}#{n} return $fn(' + ', '.join(args) + '))'
+    if style == 'partial':
+        return plain
+    raise ValueError(style)
+
+
+def text(e, style=None) -> str:
     t = e[0]
     if t == 'lit':
         return atom_text(e[1])
@@ -227,34 +255,40 @@ def text(e) -> str:
             parts.append(x[2])
             x = x[1]
         parts.append(x)
-        return '(' + ', '.join(par(p) for p in reversed(parts)) + ')'
+        return '(' + ', '.join(par(p, style) for p in reversed(parts)) + ')'
     if t == 'to':
-        return f'({par(e[1])} to {par(e[2])})'
+        return f'({par(e[1], style)} to {par(e[2], style)})'
     if t == 'filter':
-        return f'{par(e[1])}[{text(e[2])}]'
+        return f'{par(e[1], style)}[{text(e[2], style)}]'
     if t == 'map':
-        return f'({par(e[1])} ! {par(e[2])})'
+        return f'({par(e[1], style)} ! {par(e[2], style)})'
     if t in ('for', 'some', 'every'):
         kw = 'return' if t == 'for' else 'satisfies'
-        binds = ', '.join(f'$v{vid} in {par(be)}' for vid, be in e[1])
-        return f'({t} {binds} {kw} {par(e[2])})'
+        binds = ', '.join(f'$v{vid} in {par(be, style)}' for vid, be in e[1])
+        return f'({t} {binds} {kw} {par(e[2], style)})'
     if t == 'f':
-        return f'{e[1]}(' + ', '.join(par(a) for a in e[2]) + ')'
+        return call_text(e[1], [par(a, style) for a in e[2]], style)
     if t == 'cmp':
-        return f'({par(e[2])} {e[1]} {par(e[3])})'
+        return f'({par(e[2], style)} {e[1]} {par(e[3], style)})'
     if t in ('and', 'or'):
-        return f'({par(e[1])} {t} {par(e[2])})'
+        return f'({par(e[1], style)} {t} {par(e[2], style)})'
     if t == 'ar':
-        return f'({par(e[2])} {e[1]} {par(e[3])})'
+        return f'({par(e[2], style)} {e[1]} {par(e[3], style)})'
     if t == 'if':
-        return f'(if ({text(e[1])}) then {par(e[2])} else {par(e[3])})'
+        return f'(if ({text(e[1], style)}) then {par(e[2], style)} else {par(e[3], style)})'
     raise ValueError(e)
 
 
-def par(e) -> str:
-    s = text(e)
-    if s.startswith('(') or e[0] in ('lit', 'var', 'dot', 'pos', 'last', 'f', 'empty') and not s.startswith('-'):
+def par(e, style=None) -> str:
+    s = text(e, style)
+    if style is None:
+        if s.startswith('(') or e[0] in ('lit', 'var', 'dot', 'pos', 'last', 'f', 'empty') and not s.startswith('-'):
+            return s
+        return f'({s})'
+    if e[0] in ('lit', 'var', 'dot', 'pos', 'last', 'empty') and not s.startswith('-'):
         return s
+    if e[0] in ('comma', 'to', 'map', 'for', 'some', 'every', 'cmp', 'and', 'or', 'ar', 'if'):
+        return s                     # printed with their own parentheses
     return f'({s})'
 
 
@@ -448,13 +482,26 @@ def canon_item(x) -> str:
     return f'?{type(x).__name__}'
 
 
-def run_impl(expr_text: str, ctx, pv: str) -> str:
-    import elementpath
+def ctx_kwargs(ctx) -> dict:
     item, pos, size, variables = ctx
+    return dict(item=atom_py(item), position=pos, size=size,
+                variables={f'v{k}': [atom_py(a) for a in v] for k, v in variables.items()})
+
+
+def canon_result(r) -> str:
+    from elementpath import XPathNode
+    if r is None:
+        return '_'
+    if not isinstance(r, list):
+        r = [r]
+    r = [x.value if isinstance(x, XPathNode) else x for x in r]
+    return ','.join(canon_item(x) for x in r) if r else '_'
+
+
+def guarded(thunk) -> str:
+    import elementpath
     try:
-        r = elementpath.select(document()['root'], expr_text, parser=parser_class(pv), item=atom_py(item),
-                               position=pos, size=size,
-                               variables={f'v{k}': [atom_py(a) for a in v] for k, v in variables.items()})
+        return canon_result(thunk())
     except elementpath.ElementPathError as e:
         code = (getattr(e, 'code', None) or 'NOCODE')
         return 'ERR:' + str(code).split(':')[-1]
@@ -462,9 +509,81 @@ def run_impl(expr_text: str, ctx, pv: str) -> str:
         return 'ERR:OTHER:RecursionError'
     except Exception as e:  # anything else escaping is part of the behaviour
         return f'ERR:OTHER:{type(e).__name__}'
-    if not isinstance(r, list):
-        r = [r]
-    return ','.join(canon_item(x) for x in r) if r else '_'
+
+
+def run_impl(expr_text: str, ctx, pv: str) -> str:
+    """the primary route: the `elementpath.select` API, a fresh parser and token tree per call"""
+    import elementpath
+    return guarded(lambda: elementpath.select(document()['root'], expr_text, parser=parser_class(pv),
+                                              **ctx_kwargs(ctx)))
+
+
+# ---- the other public evaluation routes, and reuse of one token tree ------------------------
+API_ROUTES = ('evaluate', 'token-select', 'iter-select', 'selector', 'reuse')
+_SELECTORS: dict = {}
+
+
+def other_context(ctx):
+    """a different dynamic context for the same expression: other item, position, size, every variable
+    reversed and extended (used to evaluate one token tree with different variable maps)"""
+    item, pos, size, variables = ctx
+    item2 = ('s', 'other') if item[0] != 's' else ('i', 11)
+    vars2 = {k: list(reversed(v)) + [('i', 41 + k)] for k, v in variables.items()}
+    return (item2, pos + 1, size + 2, vars2)
+
+
+def run_route(expr_text: str, ctx, pv: str, route: str) -> str:
+    """the same expression through another public evaluation route of the engine"""
+    import elementpath
+    from elementpath import XPathContext, Selector
+    root = document()['root']
+    cls = parser_class(pv)
+    if route == 'evaluate':
+        return guarded(lambda: cls().parse(expr_text).evaluate(XPathContext(root, **ctx_kwargs(ctx))))
+    if route == 'token-select':
+        return guarded(lambda: list(cls().parse(expr_text).select(XPathContext(root, **ctx_kwargs(ctx)))))
+    if route == 'iter-select':
+        return guarded(lambda: list(elementpath.iter_select(root, expr_text, parser=cls, **ctx_kwargs(ctx))))
+    if route == 'selector':
+        return guarded(lambda: list(Selector(expr_text, parser=cls).iter_select(root, **ctx_kwargs(ctx))))
+    if route == 'reuse':
+        # ONE Selector (one token tree) per expression text, kept for the whole run and evaluated with
+        # alternating dynamic contexts; the answers for the same context must not change
+        key = (expr_text, pv)
+        try:
+            sel = _SELECTORS.get(key)
+            if sel is None:
+                if len(_SELECTORS) > 20000:
+                    _SELECTORS.clear()
+                sel = _SELECTORS[key] = Selector(expr_text, parser=cls)
+        except Exception:
+            return guarded(lambda: Selector(expr_text, parser=cls))
+        other = other_context(ctx)
+        o1 = guarded(lambda: sel.select(root, **ctx_kwargs(other)))
+        r1 = guarded(lambda: sel.select(root, **ctx_kwargs(ctx)))
+        o2 = guarded(lambda: list(sel.iter_select(root, **ctx_kwargs(other))))
+        r2 = guarded(lambda: sel.select(root, **ctx_kwargs(ctx)))
+        if r1 != r2 or o1 != o2:
+            return f'ERR:OTHER:unstable[{r1}|{r2}|{o1}|{o2}]'
+        return r1
+    raise ValueError(route)
+
+
+def routes_for(e, pvs: list[str]) -> list[tuple[str, str]]:
+    """(parser, route) pairs that apply to the expression: the API routes for every parser class, the
+    function-item spellings of the calls for XPath 3.0 / 3.1"""
+    out = [(pv, r) for pv in pvs for r in API_ROUTES]
+    if any(x[0] == 'f' and x[2] for x in subexprs(e)):
+        for pv in pvs:
+            if pv in ('30', '31'):
+                out += [(pv, 'call:' + st) for st in CALL_STYLES if st != 'arrow' or pv == '31']
+    return out
+
+
+def run_any(e, ctx, pv: str, route: str) -> str:
+    if route.startswith('call:'):
+        return run_impl(text(e, route[5:]), ctx, pv)
+    return run_route(text(e), ctx, pv, route)
 
 
 def ctx_fields(ctx) -> str:
@@ -690,6 +809,36 @@ def probe_cases(thorough: bool, rng=None):
         add(('some', [(5, s)], ('f', 'boolean', [('var', 5)])), name)
         add(('every', [(5, s)], ('f', 'boolean', [('var', 5)])), name)
         add(('comma', s, F('reverse', s)), name)
+        # ONE call site (one token) evaluated with DIFFERENT arguments: the loop variables carry the boundary
+        # arguments, the same `subsequence` / `remove` / ... token is called once per binding
+        A, Bv, BAR = ('var', 5), ('var', 6), S('|')
+        sample = nums if thorough else rng.sample(nums, min(len(nums), 8))
+        add(('for', [(5, seq(sample))], seq([F('subsequence', s, A), BAR])), 'call-site')
+        add(('for', [(5, seq(sample)), (6, seq(sample[:5]))], seq([F('subsequence', s, A, Bv), BAR])), 'call-site')
+        add(('for', [(5, seq(boundary_ints(n)))], seq([F('remove', s, A), BAR])), 'call-site')
+        add(('for', [(5, seq(boundary_ints(n)))], seq([F('insert-before', s, A, I(99)), BAR])), 'call-site')
+        add(('for', [(5, seq(boundary_ints(n))), (6, seq([I(98), S('z')]))],
+             seq([F('insert-before', s, A, Bv), BAR])), 'call-site')
+        add(('for', [(5, seq([I(1), I(2), Dd(1), S('b'), B(True), Q('2.50')]))], seq([F('index-of', s, A), BAR])),
+            'call-site')
+        prefix = ('filter', s, ('cmp', 'le', ('pos',), A))          # the sequence argument varies as well
+        for f in ('count', 'empty', 'exists', 'head', 'tail', 'reverse', 'distinct-values', 'sum', 'avg', 'min',
+                  'max', 'zero-or-one', 'one-or-more'):
+            add(('for', [(5, ('to', I(0), I(n + 1)))], seq([F(f, prefix), BAR])), 'call-site')
+        add(('for', [(5, ('to', I(0), I(n + 1)))], seq([F('subsequence', prefix, I(2), Dd(1.5)), BAR])), 'call-site')
+    # a value that is used again after it was passed to a function (aliasing of the variable's list)
+    for V in (('var', 0), ('var', 2)):
+        for f in ('count', 'empty', 'exists', 'head', 'tail', 'reverse', 'distinct-values', 'min', 'max',
+                  'one-or-more', 'boolean'):
+            add(seq([F(f, V), V, F(f, V)]), 'aliasing')
+        add(seq([F('insert-before', V, I(2), V), V]), 'aliasing')
+        add(seq([F('remove', V, I(1)), V, F('subsequence', V, I(2)), V, F('subsequence', V, I(1), I(1)), V]), 'aliasing')
+        add(('for', [(5, seq([I(1), I(2)]))], seq([F('reverse', V), V, F('remove', V, ('var', 5))])), 'aliasing')
+        add(F('count', seq([F('tail', V), V, F('head', V)])), 'aliasing')
+        add(seq([F('index-of', V, ('filter', V, I(1))), V]), 'aliasing')
+        add(seq([F('distinct-values', seq([V, V])), F('count', V)]), 'aliasing')
+    add(seq([F('sum', ('var', 0)), ('var', 0), F('avg', ('var', 0)), F('sum', ('var', 0), ('var', 1)), ('var', 1)]),
+        'aliasing')
     for a in (-3, -1, 0, 1, 2, 5):
         for b in (-3, -1, 0, 1, 2, 5, 9):
             add(('to', I(a), I(b)))
@@ -961,6 +1110,8 @@ class Gen:
         if r < 0.64:
             binds, env2 = self.bindings(d - 1, env)
             return ('for', binds, self.iseq(d - 1, env2))
+        if r < 0.67:
+            return self.lifted_call(d, env)
         if r < 0.72:
             if rng.random() < 0.5:
                 return F('subsequence', self.iseq(d - 1, env), self.number(d - 1, env))
@@ -976,6 +1127,27 @@ class Gen:
         if r < 0.97:
             return ('to', self.integer(d - 1, env), self.integer(d - 1, env))
         return ('if', self.boolean(d - 1, env), self.iseq(d - 1, env), self.iseq(d - 1, env))
+
+    def lifted_call(self, d: int, env: Env):
+        """ONE call site evaluated with DIFFERENT arguments: `for $a in (..), $b in (..) return f(S, $a, $b)`;
+        the position arguments reach the function through variables, several calls per token"""
+        rng = self.rng
+        s = self.iseq(d - 1, env)
+        va = self.fresh(env)
+        vb = self.fresh(env.bind(va))
+        A, Bv = ('var', va), ('var', vb)
+        nums = lambda: seq([self.number(0, env) for _ in range(rng.choice([2, 3, 3, 4]))])
+        ints = lambda: seq([self.integer(0, env) for _ in range(rng.choice([2, 3, 3, 4]))])
+        k = rng.random()
+        if k < 0.3:
+            return ('for', [(va, nums())], F('subsequence', s, A))
+        if k < 0.6:
+            return ('for', [(va, nums()), (vb, nums())], F('subsequence', s, A, Bv))
+        if k < 0.75:
+            return ('for', [(va, ints())], F('remove', s, A))
+        if k < 0.9:
+            return ('for', [(va, ints())], F('insert-before', s, A, self.int_lit()))
+        return ('for', [(va, ints())], F('index-of', s, A))
 
     # ---- node sequences (items of $v2 and node variables bound by for) ----------------------
     def nseq(self, d: int, env: Env):
@@ -1372,25 +1544,49 @@ def parse_answer(ans: str) -> dict:
     return dict(kv.split('=', 1) for kv in ans.split(' ') if '=' in kv)
 
 
-def evaluate(run: Run, cases: list[Case], stats=True) -> list[dict]:
-    """runs every case through the driver and the engine; returns one record per case"""
-    answers = run.driver('C08', [c.line() for c in cases])
-    recs = []
-    for c, ans in zip(cases, answers):
-        rec = {'case': c, 'answer': ans}
-        if ans.startswith('bad-'):
-            rec['bad'] = True
-            recs.append(rec)
-            continue
-        f = parse_answer(ans)
-        model, spec = f['model'], f['spec']
-        rec['model'], rec['spec'], rec['k'], rec['u'] = model, spec, f.get('k', '0'), f.get('u', '0')
-        rec['lazy'] = f.get('lazy', spec)
-        rec['errs'] = set() if f.get('errs', '_') == '_' else set(f['errs'].split(','))
-        t = text(c.expr)
-        rec['impl'] = {pv: run_impl(t, c.ctx, pv) for pv in parsers_for(c.expr)}
-        recs.append(rec)
-    return recs
+ALL_ROUTES = False        # the shrinker evaluates every candidate through every route
+
+
+def evaluate(run: Run, cases: list[Case], stats=True, answers=None) -> list[dict]:
+    """runs every case through the driver and the engine; returns one record per case.  Besides the
+    primary route (`elementpath.select`, every parser class) each case goes through ONE other route
+    (chosen from a checksum of the case, so a re-run takes the same one)"""
+    if answers is None:
+        answers = run.driver('C08', [c.line() for c in cases])
+    elif not isinstance(answers, list):
+        # a pending driver call (see run_cases): the engine works while the Lean driver runs
+        impl_first = [impl_results(c) for c in cases]
+        answers = answers.result()
+        return [assemble(c, ans, impl) for c, ans, impl in zip(cases, answers, impl_first)]
+    return [assemble(c, ans, None) for c, ans in zip(cases, answers)]
+
+
+def impl_results(c: Case) -> dict:
+    import zlib
+    t = text(c.expr)
+    pvs = parsers_for(c.expr)
+    impl = {pv: run_impl(t, c.ctx, pv) for pv in pvs}
+    routes = routes_for(c.expr, pvs)
+    if not ALL_ROUTES:
+        routes = [routes[zlib.crc32(c.line().encode()) % len(routes)]]
+    for pv, route in routes:
+        impl[f'{pv}/{route}'] = run_any(c.expr, c.ctx, pv, route)
+    return impl
+
+
+def assemble(c: Case, ans: str, impl) -> dict:
+    rec = {'case': c, 'answer': ans}
+    if ans.startswith('bad-'):
+        rec['bad'] = True
+        return rec
+    f = parse_answer(ans)
+    model, spec = f['model'], f['spec']
+    rec['model'], rec['spec'], rec['k'], rec['u'] = model, spec, f.get('k', '0'), f.get('u', '0')
+    rec['lazy'] = f.get('lazy', spec)
+    rec['m'] = f.get('m', '1')
+    rec['errs'] = set() if f.get('errs', '_') == '_' else set(f['errs'].split(','))
+    rec['impl'] = impl if impl is not None else impl_results(c)
+    return rec
 
 
 def judge(run: Run, rec: dict, stats=True) -> list[Disagreement]:
@@ -1410,6 +1606,13 @@ def judge(run: Run, rec: dict, stats=True) -> list[Disagreement]:
             st.count(nt)
         st.count(f'depth:{min(depth(c.expr), 12)}')
         st.count('spec-result:' + (spec if spec.startswith('ERR') else ('empty' if spec == '_' else 'value')))
+    if rec.get('m') == '0':
+        # the hypothesis of theorem min_max_fo_literal (monotone promotion to xs:double) fails on the
+        # argument of a top-level fn:max / fn:min: the kernel function `rnd` is not what it is trusted to be
+        out.append(Disagreement(c.describe(), impl='promotionMonotoneOn=false', model=None, spec=None,
+                                what='hypothesis', site=site_of(c.expr)))
+    elif stats and c.expr[0] == 'f' and c.expr[1] in ('min', 'max'):
+        st.count('hypothesis-checked:promotionMonotoneOn')
     if rec.get('u') == '1':
         # F08u: trigger `Spec.sumNodeInvalid` (top-level fn:sum over a node that is not a number): F&O
         # requires FORG0001, the code raises FORG0006 (pinned by the repository's test suite)
@@ -1430,7 +1633,7 @@ def judge(run: Run, rec: dict, stats=True) -> list[Disagreement]:
         return out
     for pv, impl in rec['impl'].items():
         if stats:
-            st.count('parser:' + pv)
+            st.count(('route:' + pv.split('/', 1)[1]) if '/' in pv else 'parser:' + pv)
         if impl == spec and impl == model:
             continue
         errs, lazy = rec['errs'], rec['lazy']
@@ -1447,7 +1650,10 @@ def judge(run: Run, rec: dict, stats=True) -> list[Disagreement]:
                 continue
             spec = f'{spec} [permitted: value {lazy if not lazy.startswith("ERR") else "none"}; errors {",".join(sorted(errs))}]'
         d = c.describe()
-        d['parser'] = {'20': 'XPath2Parser', '30': 'XPath30Parser', '31': 'XPath31Parser'}[pv]
+        names = {'20': 'XPath2Parser', '30': 'XPath30Parser', '31': 'XPath31Parser'}
+        d['parser'] = names[pv] if pv in names else names[pv.split('/')[0]] + ' route ' + pv.split('/', 1)[1]
+        if pv.startswith(('30/call:', '31/call:')):
+            d['xpath_as_evaluated'] = text(c.expr, pv.split('call:')[1])
         what = 'value' if impl != spec else 'model'
         # F08b: trigger predicate `Expr.loopVarInRange` computed by the driver from the expression
         tags = ['F08b'] if rec.get('k') == '1' and impl == 'ERR:XPST0008' else []
@@ -1469,10 +1675,18 @@ def site_of(e) -> str:
 
 
 def run_cases(run: Run, cases: list[Case], stats=True) -> list[Disagreement]:
+    from concurrent.futures import ThreadPoolExecutor
+    from harness.common import ensure_driver_built
+    ensure_driver_built('C08')
     out = []
-    for i in range(0, len(cases), 3000):
-        chunk = cases[i:i + 3000]
-        recs = evaluate(run, chunk)
+    chunks = [cases[i:i + 2500] for i in range(0, len(cases), 2500)]
+    # the Lean driver (a subprocess per chunk, at most three at a time) runs while this process evaluates
+    # the same chunk with the engine
+    pool = ThreadPoolExecutor(max_workers=3)
+    pending = [pool.submit(run.driver, 'C08', [c.line() for c in chunk]) for chunk in chunks]
+    pool.shutdown(wait=False)
+    for chunk, fut in zip(chunks, pending):
+        recs = evaluate(run, chunk, answers=fut)
         byid = {id(r['case']): r for r in recs}
         for r in recs:
             out += judge(run, r, stats)
@@ -1553,10 +1767,14 @@ def make_shrink(run: Run):
                 break
             sub = Run(PROP, run.tier, run.seed)
             found = None
+            global ALL_ROUTES
             try:
+                ALL_ROUTES = True
                 recs = evaluate(sub, cands)
             except DriverError:
                 break
+            finally:
+                ALL_ROUTES = False
             for r in sorted(recs, key=lambda r: len(r['case'].line())):
                 ds = [x for x in judge(sub, r, stats=False) if x.kind == best.kind and x.what == best.what]
                 if ds:
@@ -1625,18 +1843,25 @@ def search(run: Run):
 # --------------------------------------------------------------------------------------
 def body(run: Run) -> int:
     run.trusted_base += ['harness/c08.py: AST printers (XPath text / Polish notation), canonicalisers',
-                         'decimal.Decimal division (28 digits) and float(Fraction) (correct rounding) for fn:avg']
+                         'EPV/Model/SeqFunsNum.lean `rnd` / `roundSig28` / `lexDouble` (shared by model and specification) as '
+                         'IEEE 754 round-to-nearest-even, 28-digit decimal division and the xs:double lexical mapping: '
+                         'compared with CPython float / Decimal on every run (kernel probe), not proved']
     run.assumptions += [
-        'items are xs:integer, xs:double, xs:string, xs:boolean; xs:decimal, xs:float, untypedAtomic, dates are '
-        'outside the model (nodes: the structural functions are polymorphic; node probes compare by index)',
-        'a finite xs:double is its exact binary value; + on doubles is exact (generated doubles are multiples of '
-        '1/4 below 2^53, or +-1e30 alone); negative zero is identified with zero',
-        'integers compared with doubles are below 2^53 (exact promotion); double eq double uses exact equality '
-        '(elementpath applies a 1e-7 relative tolerance: C07, the generated doubles are farther apart)',
-        'generators are modelled by their complete output: in random compositions an error of the strict '
-        'semantics that the lazy engine avoids, or reports with another code, is counted (soft:*) not compared '
-        '(XPath 3.1 2.3.4); boundary probes are compared strictly',
-        'code-point collation only']
+        'items are xs:integer (unbounded), xs:decimal (exact), xs:double (exact binary value, NaN, +-INF, -0), '
+        'xs:string, xs:boolean, xs:untypedAtomic and element nodes (identified by document order, string value '
+        'from the document); xs:float, dates, durations, QNames, maps, arrays and non-codepoint collations are '
+        'outside the model',
+        'xs:decimal arithmetic stays within the 28 significant digits of the decimal context (the generator '
+        'bounds the operands); `xs:double op integer beyond the double range` (FOAR0002 in the engine) is not generated',
+        'double eq double is exact equality (elementpath applies a 1e-7 relative tolerance: C07; the generated '
+        'doubles are farther apart)',
+        'errors: when some subexpression can raise, the engine must deliver the value of the laziest evaluation '
+        'or one of the reachable error codes (Spec.Permitted, XPath 3.1 2.3.4); otherwise the value is compared '
+        'exactly; nothing is only counted',
+        'fn:sum over a node whose string value is not an xs:double literal is outside the modelled fragment '
+        '(known finding F08u); fn:max / fn:min compare exactly and promote the result: equal to the F&O '
+        'wording given that xs:double rounding is monotone (theorem min_max_fo_literal, hypothesis evaluated by '
+        'the driver on every aggregate that is run)']
     run.prove(['EPV.Props.C08'], ['EPV.Spec.FOSeq'])
     rng = run.rng
     try:
